@@ -146,3 +146,98 @@ PROPS["C06"] = {
     "bounds": {"quick": "universe 10 keys (1024 dictionaries x 6 variants) + 20 strided lengths; node ids 1,2,63,127; 13 buffer sizes x lengths 0..4100",
                "thorough": "universe 14 keys (16384 x 6) + strided lengths 11..300; node ids 1..127; 308 buffer sizes x lengths 0..4100"},
 }
+
+PROPS["C16"] = {
+    "level": "model_checking",
+    "technique": "explicit-state BFS to a fixpoint over 1005h/1006h writes, SYNC and near-miss frames, NMT commands, ticks and error reads, against a reference model {identifier, producing, period, phase}",
+    "text": "Five initial configurations of (1005h, 1006h, timer frequency). 21 events: SDO write 1005h in {80h, 81h, 40000080h, 40000081h}; SDO write 1006h in {0, 1, 2, 3 ticks, half a tick}; frames on 80h, 81h, 7Fh; NMT start/stop/pre-op/reset communication; tick; CONodeGetErr (the application reading - or not reading - the sticky node error); RPDO frames for a synchronous RPDO and a local write of its object. After every step: the produced SYNC frames (identifier, DLC 0, exactly every period counted from the start/re-timing write or reset, only in PRE-OP/OP), the SDO verdicts (0609 0030h with the old value kept for a CAN-ID change while producing and for a period below the timer resolution; read-back otherwise), recognition of received SYNC (type-1 TPDO sent exactly once in OPERATIONAL, buffered synchronous RPDO applied exactly once, near-miss identifiers handed to the application). The reachable state set is closed (fixpoint) for all five configurations.",
+    "note": "periods are whole ticks up to 3 ticks; enabling the producer while 1006h holds no usable period and writing 0 to 1006h while producing may be refused or accepted (the statement leaves it open); a frame buffered before an NMT change may be applied at the next SYNC in OPERATIONAL or dropped; periods above 6.5 s are not covered",
+    "jobs": {
+        "quick": [J("c16", c, depth=60, deadline=120) for c in range(5)],
+        "thorough": [J("c16", c, depth=60, deadline=600) for c in range(5)],
+    },
+}
+
+PROPS["C12"] = {
+    "level": "model_checking",
+    "technique": "explicit-state BFS over triggers, value changes, SYNCs, ticks, NMT changes and parameter writes against a reference TPDO model (36 parameter configurations) + exhaustive sweep over all mapping compositions",
+    "text": "(a) 36 configurations: TPDO0 event-driven (type 254/255) x inhibit {0,2,3 ticks} x event time {0,3,4 ticks}, mapped to an asynchronous 8-bit and a 16-bit object; TPDO1 synchronous of type {1,2,3,240}; started in PRE-OP or OPERATIONAL. 21 events: COTPdoTrigPdo, COTPdoTrigObj, dictionary write of the asynchronous object with a changed / an unchanged value, write of the other mapped object, SYNC, tick, NMT start/pre-op/stop/reset communication, SDO writes to 1800h:1 (invalidate/re-validate), :2, :3, :5. Per step the sequence of TPDO frames (identifier, DLC, data) and the COPdoTransmit calls must equal the reference model: only in OPERATIONAL with a valid COB-ID, immediate transmission on a trigger unless the inhibit time runs, exactly one transmission at the end of the inhibit time for any number of triggers, event-timer transmissions exactly one event time after the last transmission, ties inhibit-first, type n on every n-th SYNC. (b) all 223 ordered compositions of 1..8 mapped objects of 1/2/3/4 bytes (<= 8 bytes) x two value patterns: frame == little-endian concatenation, DLC == mapped bytes.",
+    "note": "a write to 18xxh:5 while the inhibit time runs ends the inhibit time and sends a waiting transmission (the behaviour the repository's unit test pins down); explicit triggers of the synchronous TPDO and inhibit on synchronous TPDOs are outside the statement and not in the alphabet; depth-bounded",
+    "jobs": {
+        "quick": [J("c12", c, depth=8, deadline=100) for c in range(36)] + [J("c12map")],
+        "thorough": [J("c12", c, depth=10, deadline=1200, max_states=20000000) for c in range(36)] + [J("c12map")],
+    },
+}
+
+PROPS["C13"] = {
+    "level": "model_checking",
+    "technique": "explicit-state BFS over RPDO frames, SYNC, local writes and NMT changes for every RPDO table (3 channels x {absent, asynchronous, synchronous, invalid}) with the complete object image compared after every step + exhaustive sweep over all mappings incl. dummies",
+    "text": "(a) all 4^3 RPDO tables, started in PRE-OP and in OPERATIONAL (128 configurations); mappings with a dummy entry, two 8-bit objects, a 32-bit object. 21 events: a frame on each configured identifier with payload pattern A/B and DLC 8 / mapped length; a frame on each neighbouring identifier; SYNC; a local write to the mapped objects; NMT start/pre-op/stop; tick. After every step all application objects must equal the reference image: asynchronous RPDOs take effect immediately and only in OPERATIONAL, synchronous ones exactly once at the next SYNC after a reception, a SYNC without reception changes nothing, other identifiers and states change nothing, nothing is transmitted. Most tables close (fixpoint). (b) all 5332 ordered mappings of objects of width 1/2/3/4 and dummy entries 0002h..0007h (width 1/2/4) totalling <= 8 bytes x two payloads: every object holds exactly its little-endian field, dummies consume their width, no other object changes.",
+    "note": "a frame buffered by a synchronous RPDO before an NMT change may be applied at the next SYNC in OPERATIONAL or dropped; DLC shorter than the mapped length is not in the alphabet (C01 covers it for safety)",
+    "jobs": {
+        "quick": [J("c13", c, depth=30, deadline=100, allow_dead=True) for c in range(128)] + [J("c13map")],
+        "thorough": [J("c13", c, depth=60, deadline=600, allow_dead=True) for c in range(128)] + [J("c13map")],
+    },
+}
+
+PROPS["C14"] = {
+    "level": "model_checking",
+    "technique": "explicit-state BFS over expedited SDO write histories to the PDO communication and mapping parameters against a reference model of the CiA 301 preconditions, with an activation probe at every activation",
+    "text": "One dynamic RPDO and one dynamic TPDO. 84 events: per PDO the COB-ID written with {valid, invalid, other id valid, other id invalid, extended, RTR-allowed/extended}; transmission type {1,254,255}; mapping count {0,1,2,8,9}; mapping entries 1, 2 and 8 written with {mappable 8/16/32-bit object, non-mappable, read-only, write-only, non-existing object, 64-bit length, length != object width}; NMT start / pre-op. Per step: accept/refuse verdict, the abort codes the property set fixes (0609 0030h, 0604 0041h, 0604 0042h), and the complete stored configuration (a refused write changes nothing). At every activation (entering OPERATIONAL, re-validation while OPERATIONAL) the PDO is probed: the TPDO frame has DLC = sum of the mapped bytes <= 8 and carries the mapped values, an RPDO frame writes exactly the mapped objects; public ObjNum/Size[] stay within 8.",
+    "note": "verdicts the statement leaves open are accepted either way: invalidating and changing the id in one write, rewriting the identical valid COB-ID, a count that covers an unset (zero) entry, mapping lengths that differ from the object width; the abort code is free for 'PDO is valid' / 'count is not zero' refusals; depth-bounded",
+    "jobs": {
+        "quick": [J("c14", 0, depth=6, deadline=100), J("c14", 1, depth=6, deadline=100)],
+        "thorough": [J("c14", 0, depth=8, deadline=1200, max_states=20000000), J("c14", 1, depth=8, deadline=1200, max_states=20000000)],
+    },
+}
+
+E8 = ["CO_EMCY_N=8"]; S15 = {"nerr": 3, "big": 0}
+PROPS["C15"] = {
+    "level": "model_checking",
+    "technique": "explicit-state BFS over error set/clear/reset calls, 1003h/1014h writes, read-outs and NMT changes against a reference EMCY model (fixpoint for history depths 0..3)",
+    "text": "12 configurations: emergency tables with register classes {0,1,1,2,7} and {1,1,1,1,1} x history depth {0 (absent),1,2,3,8}, one with 1014h initially disabled, one left in INIT; CO_EMCY_N 8 and 32. Events: COEmcySet(e, with/without manufacturer field) and COEmcyClr(e) for 5 errors and one index >= CO_EMCY_N; COEmcyReset(silent 0/1); SDO write 1003h:0 with 0 and 1; SDO reads of 1003h:0..depth+1 and 1001h; COEmcyGet/COEmcyCnt; NMT stop/start/pre-op; SDO write 1014h disable/enable; a burst macro-step (three activations) for the depth-8 ring. After every step: EMCY frames (identifier from 1014h, code, register, manufacturer bytes; one per real transition, none while 1014h is invalid or the NMT state forbids), 1001h, COEmcyCnt, COEmcyGet of all slots, 1003h count and entries newest-first, SDO verdicts. Closed state space (fixpoint) for history depths 0..3, depth-bounded for depth 8.",
+    "note": "an index >= CO_EMCY_N is ignored or treated as the last row (both accepted, then full consistency required); the register byte of non-silent-reset frames may be any value reachable while clearing; reads above the current count and the abort code of a refused 1003h:0 write are not judged",
+    "jobs": {
+        "quick":    [J("c15", c, defs=E8, depth=40, deadline=100) for c in (0, 1, 2, 5, 6, 7, 10, 11)] +
+                    [J("c15", c, defs=E8, depth=6, deadline=100) for c in (3, 4, 8, 9)] +
+                    [J("c15", 2, depth=40, deadline=100), J("c15", 8, depth=6, deadline=100), J("c15", 4, depth=5, deadline=100)],
+        "thorough": [J("c15", c, defs=E8, depth=40, deadline=850) for c in (0, 1, 2, 5, 6, 7, 10, 11)] +
+                    [J("c15", c, defs=E8, depth=40, deadline=850, max_states=8000000) for c in (3, 8)] +
+                    [J("c15", c, defs=E8, depth=7, deadline=850, max_states=20000000) for c in (4, 9)] +
+                    [J("c15", c, defs=E8, depth=10, deadline=850, max_states=20000000, opts=S15) for c in (4, 9)] +
+                    [J("c15", 3, depth=40, deadline=850, max_states=8000000), J("c15", 7, depth=40, deadline=850), J("c15", 4, depth=7, deadline=850, max_states=20000000)],
+    },
+}
+
+PROPS["C17"] = {
+    "level": "fault_enumeration",
+    "technique": "exhaustive enumeration of (parameter-group layout, request history, restart point, NVM fault positions) on the real 1010h/1011h store/load path with a harness-owned NVM device, against a reference model (RAM image, NVM image, last successfully stored image per group)",
+    "text": "9 layouts (1..4 groups, sizes {1,2,5,64}, both reset types, enabled/disabled/autonomous flags, adjacent NVM offsets with guard bytes). Per layout every request history of length 3 (quick) / 4 (thorough) over {'save' and a wrong value to every 1010h sub-index, 'load' and a wrong value to every 1011h sub-index, an application change of each group, NMT reset node / communication}, every restart point (discard node and RAM, keep NVM, initialise again) and every position k at which the k-th NVM driver call is short by one byte or returns 0 (one fault; thorough additionally two faults on histories of length 3); plus a sweep of 41 wrong signature values per object and sub-index and the first initialisation on an erased device. After every request the SDO verdict, the complete 512-byte NVM image, the RAM image, the COParaDefault calls and - after restarts and resets - the reloaded groups are compared with the reference; a short write must never be confirmed, a short read must leave a node error.",
+    "note": "sub-index 1 means 'all groups' (placeholder CO_PARA) when there are >= 2 groups, as the repository's own unit test builds it; a request addressing a disabled group may be confirmed or aborted; the content of a group whose own driver call was short is adopted from the implementation; groups of the other reset type may be reloaded or left alone on an NMT reset",
+    "rule": "a case is a tuple (layout, request history, restart point, fault positions and kinds) executed from a restored snapshot; non-trivial = at least one NVM driver call or SDO answer happened; distinct = distinct hashes of verdicts, driver-call log and final images",
+    "jobs": {
+        "quick":    [J("c17", c) for c in range(9)],
+        "thorough": [J("c17", c, deadline=900) for c in range(9)],
+    },
+    "bounds": {"quick": "histories of length 3, every restart point, 1 fault at every NVM call (short by 1 / 0 bytes)",
+               "thorough": "histories of length 4 with 1 fault + histories of length 3 with 2 faults"},
+}
+
+def c18_jobs(quick):
+    jobs = []
+    for c in range(6):
+        jobs.append(J("c18", c, depth=60, opts={"part": 1}))
+        if quick:
+            jobs.append(J("c18", c, depth=60, opts={"part": 2, "small": 1}))
+            jobs.append(J("c18", c, depth=8, deadline=60))
+        else:
+            jobs.append(J("c18", c, depth=60, opts={"part": 2}, deadline=600, max_states=8000000))
+            jobs.append(J("c18", c, depth=40, deadline=800, max_states=20000000))
+    return jobs
+PROPS["C18"] = {
+    "level": "model_checking",
+    "technique": "explicit-state BFS over all LSS command specifiers with matching/off-by-one arguments, NMT resets and ticks against a reference CiA 305 state machine (fixpoint for the addressing and the configuration sub-alphabet)",
+    "text": "6 configurations (identity (1,2,3,4), (0,0,0,0), (FFFFFFFFh x4); node id 1 and 255). 70 events: switch-state-global {waiting, configuration}; selective 64..67 and identify 70..75 with {match, -1, +1}; configure-node-id {0,1,127,128,254,255}; configure-bit-timing table {0,1} x index {0,4,5,8,9,10}; activate with delay {0,2}; store with the callback succeeding/failing; inquire 90..94; cs 76; a reserved cs; a truncated inquiry; NMT reset communication/node, start, stop, pre-op; tick; SDO probes on the old and new node id. The reference model keeps LSS mode, selective and identify progress (as sets where CiA 305 leaves the progress open), pending / stored / active node id and bit rate. Per step: number of answers (<=1, on 7E4h, command specifier and documented error code), 44h exactly after an in-order fully matching selective sequence, 4Fh exactly when the identity lies in the ranges, silence in waiting state, store-callback arguments, node id and bit rate after the next reset, and that no LSS frame reaches another service or the application callback. The addressing sub-alphabet (50 events) and the configuration sub-alphabet (30/40 events) close to a fixpoint; the full product is explored to a depth bound.",
+    "note": "open in CiA 305 and accepted either way: LSS state and pending values across a reset (determined by a side probe), selective frames in configuration state, the answer to cs 76, inquiry of an unconfigured node id, everything about bit timing activation except 'no answer and no effect in waiting state'; no NMT/SDO traffic during an activation",
+    "jobs": {"quick": c18_jobs(True), "thorough": c18_jobs(False)},
+}
